@@ -8,6 +8,8 @@
 #include <string.h>
 #include <stdint.h>
 #include <dlfcn.h>
+#include <sys/mman.h>
+#include <unistd.h>
 #define BOSU ((size_t)-1)
 static int (*p_memset)(void *, size_t, int, size_t, size_t), (*p_memzero)(void *, size_t, size_t);
 static int (*p_memset16)(uint16_t *, size_t, uint16_t, size_t, size_t), (*p_memset32)(uint32_t *, size_t, uint32_t, size_t, size_t);
@@ -35,7 +37,7 @@ static void one(int f, size_t n, int al, int v, int slack, int bosmode) {
     size_t dmaxb = (f == 0 || f == 2 || f == 3) ? nb + (size_t)slack * es : nb;
     size_t bos = bosmode == 0 ? BOSU : bosmode == 1 ? dmaxb : dmaxb + 24;
     memcpy(snap, arena, ARENA);
-    static const uint32_t V8[] = { 0, 0x5a, 0xff, 0x80 }, V16[] = { 0, 0x5a5a, 0x1234, 0x8001, 0xfffe }, V32[] = { 0, 0x5a5a5a5a, 0x12345678, 0x80000001, 0xfffffffe };
+    static const uint32_t V8[] = { 0, 0x5a, 0xff, 0x80 }, V16[] = { 0, 0x5a5a, 0x1234, 0x8001, 0xfffe, 0xa55a, 0x0100 }, V32[] = { 0, 0x5a5a5a5a, 0x12345678, 0x80000001, 0xfffffffe, 0xa5c3c3a5, 0xff0000ff, 0x01000001, 0x00ff00ff, 0xabcdabcd };   /* incl. byte-palindromic and half-repeating words */
     char cs[120]; snprintf(cs, sizeof cs, "%d %zu %d %d %d %d", f, n, al, v, slack, bosmode); n_calls++; h_n = 0;
     switch (f) {
     case 0: val = V8[v]; rc = p_memset(d, nb + slack, (int)val, n, bos); break;
@@ -72,16 +74,38 @@ int main(int argc, char **argv) {
     void *(*sm)(void *) = dlsym(L, "set_mem_constraint_handler_s"), *(*ss)(void *) = dlsym(L, "set_str_constraint_handler_s");
     if (!p_memset || !p_memzero || !p_memset16 || !p_memset32 || !p_memzero16 || !p_memzero32 || !p_strzero || !sm || !ss) { fprintf(stderr, "missing symbols\n"); return 2; }
     sm((void *)handler); ss((void *)handler);
+    int only_f = -1; size_t only_len = 0;
+    if (argc >= 5 && !strcmp(argv[1], "replay") && !strcmp(argv[2], "huge")) { verbose = 1; only_f = atoi(argv[3]); only_len = strtoull(argv[4], NULL, 10); setenv("C18_HUGE", "1", 1); goto huge; }
     if (argc >= 7 && !strcmp(argv[1], "replay")) { verbose = 1; one(atoi(argv[2]), strtoul(argv[3], NULL, 10), atoi(argv[4]), atoi(argv[5]), atoi(argv[6]), argc > 7 ? atoi(argv[7]) : 0); printf(nsig ? "VERDICT violation %s\n" : "VERDICT ok\n", nsig ? sigs[0] : ""); return nsig ? 1 : 0; }
     size_t nmax = argc > 1 ? strtoul(argv[1], NULL, 10) : 80;
     for (int f = 0; f < 7; f++) for (size_t n = 1; n <= nmax; n++) for (int al = 0; al < 16; al++) {
         if (al % ESZ[f]) continue;                                /* pointers of the element type are kept aligned for it */
-        int nv = f == 0 ? 4 : (f == 2 || f == 3) ? 5 : f == 6 ? 2 : 1;
+        int nv = f == 0 ? 4 : f == 2 ? 7 : f == 3 ? 10 : f == 6 ? 2 : 1;
         for (int v = 0; v < nv; v++) for (int slack = 0; slack < ((f == 0 || f == 2 || f == 3) ? 2 : 1); slack++) for (int bm = 0; bm < 3; bm++) one(f, n, al, v, slack * 3, bm);
     }
     /* larger sizes around the chunking of the primitives */
     static const size_t BIG[] = { 255, 256, 257, 511, 512, 513, 1000, 1023, 1024, 1025, 2000 };
     for (int f = 0; f < 7; f++) for (int b = 0; b < 11; b++) for (int al = 0; al < 16; al++) { size_t n = BIG[b] / ESZ[f]; if (al % ESZ[f]) continue; for (int bm = 0; bm < 3; bm += 2) { one(f, n, al, f == 0 || f == 2 || f == 3 ? 1 : 0, 0, bm); if (f == 2 || f == 3) one(f, n, al, 3, 0, bm); } }
+    /* sizes at and above 4 GiB with the object size known to the library (a 32 MiB memory file mapped repeatedly backs the range):
+     * the call must either refuse or really erase - samples across the whole range are inspected */
+huge:
+    if (getenv("C18_HUGE")) {
+        size_t win = 32u << 20, total = (4ull << 30) + (2u << 20); int mfd = memfd_create("huge", 0);
+        unsigned char *base = mfd >= 0 && !ftruncate(mfd, win) ? mmap(NULL, total, PROT_NONE, MAP_PRIVATE | MAP_ANONYMOUS | MAP_NORESERVE, -1, 0) : MAP_FAILED;
+        int ok = base != MAP_FAILED;
+        for (size_t off = 0; ok && off < total; off += win) { size_t l = total - off < win ? total - off : win; if (mmap(base + off, l, PROT_READ | PROT_WRITE, MAP_SHARED | MAP_FIXED, mfd, 0) == MAP_FAILED) ok = 0; }
+        if (ok) {
+            static const size_t LENS[] = { 4ull << 30, (4ull << 30) + (1u << 20), (4ull << 30) - 1, 1u << 30 };
+            for (int f = 0; f < 2; f++) for (int li = 0; li < 4; li++) { size_t len = LENS[li]; if (only_f >= 0 && (f != only_f || len != only_len)) continue;
+                memset(base, 0xC7, win); char cs[120]; snprintf(cs, sizeof cs, "huge %d %zu", f, len); n_calls++; h_n = 0;
+                int rc = f == 0 ? p_memset(base, len, 0, len, len) : p_memzero(base, len, len);
+                if (verbose) printf("%s len=%zu rc=%d handler=%d\n", FN[f], len, rc, h_n);
+                if (rc != 0) continue;                                  /* refused (above RSIZE_MAX_MEM): fine */
+                int left = 0; for (size_t o = 0; o < len; o += 65521) if (base[o] != 0) left++; if (base[len - 1] != 0) left++;
+                if (left) report(FN[f], "addressed-byte-not-erased", li < 2 ? "size-known,n>=4GiB" : "size-known,n<4GiB-large", cs); }
+        } else fprintf(stderr, "cannot map the 4 GiB window: huge sizes not judged\n");
+    }
+    if (only_f >= 0) { printf(nsig ? "VERDICT violation %s\n" : "VERDICT ok\n", nsig ? sigs[0] : ""); return nsig ? 1 : 0; }
     for (int i = 0; i < nsig; i++) printf("{\"t\":\"viol\",\"sig\":\"%s\",\"n\":%ld,\"case\":\"%s\"}\n", sigs[i], sigcnt[i], sigcase[i]);
     printf("{\"t\":\"stat\",\"calls\":%ld,\"violating\":%ld}\n", n_calls, n_viol);
     return 0;
